@@ -136,6 +136,9 @@ def kind_of(ev):
     raw = ev.get("_raw", {})
     if raw.get("panic"):
         return "panic"
+    err = raw.get("err", "")
+    if t in ("CommitFailed", "Optimize") and "MarshalJSON" in err and ("invalid character" in err or "unsupported value" in err):
+        return "nonfinite-centroid"     # a commit (Optimize commits first) could not serialise an Inf/NaN centroid
     if t == "Get":
         return "err" if not ev["ok"] else ("ok-v0" if ev["v"] == 0 else "ok-vec")
     if t == "Query":
@@ -143,9 +146,6 @@ def kind_of(ev):
             return "err"
         return "score-not-from-table" if any(h[1] == -99 for h in ev["hits"]) else "hits"
     if t == "CommitFailed":
-        err = raw.get("err", "")
-        if "MarshalJSON" in err and ("invalid character" in err or "unsupported value" in err):
-            return "nonfinite-centroid"
         return "other"
     return "ok" if ev["ok"] else "err"
 
@@ -158,10 +158,16 @@ def run(c):
     vecs, behs, _ = parse_prints(r)
     if not vecs or len(behs) < 1000:
         raise vlib.InfraError("TLC emitted no vector table / too few behaviours (%d)" % len(behs))
-    if r.coverage:
-        zero = [a for a, (d, t) in r.coverage.items() if t == 0 and a not in ("Init",)]
-        if zero:
-            raise vlib.InfraError("vacuous exhaustive model: actions never taken: %s" % zero)
+    cover = {}
+    if not quick:
+        # per-action (distinct, total) of the exhaustive run; TLC lists the Query disjunct under the name Next
+        for mm in re.finditer(r"^<(\w+) line \d+, col \d+ to line \d+, col \d+ of module VectorStore(?: \([\d ]+\))?>: (\d+):(\d+)",
+                              r.out, re.M):
+            nm = "Query" if mm.group(1) == "Next" else mm.group(1)
+            cover[nm] = (int(mm.group(2)), int(mm.group(3)))
+        missing = [a for a in ("Upsert", "UpsertBatch", "Delete", "Optimize", "Get", "Query") if cover.get(a, (0, 0))[1] == 0]
+        if missing:
+            raise vlib.InfraError("vacuous exhaustive model: actions never taken: %s" % missing)
     # the model of what the code does at the pinned commit (named deviations switched on): it is expected to break
     # C33; TLC lists the programs that reach a violating state (CEX) and all others (BEH)
     ra = c.tlc_must_pass("VectorStore", c.pick("VectorStore_asis.cfg", "VectorStore_asis_thorough.cfg"), workers=c.pick(4, 6), timeout=c.pick(600, 1500))
@@ -312,6 +318,12 @@ def run(c):
                                  cls=cl, trace_tail=[e["_raw"] for e in nevs[:idx + 1]][-60:]))
     c.cov["traces_validated_against_impl"] += len(items) - len(rejected)
 
+    # the same judgement through the stop-at-first-rejection protocol of vlib (VectorStoreTrace.cfg), on a few traces
+    okay = [(n, tr) for n, tr in packed if n not in rejected][:3]
+    if okay and c.validate_traces("VectorStoreTrace", "VectorStoreTrace.cfg", okay, chunk=3):
+        raise vlib.InfraError("bulk mode and stop-at-first-rejection mode of VectorStoreTrace disagree")
+    c.cov["traces_validated_against_impl"] -= len(okay)     # already counted above
+
     # ---- 3b. white box (no verdict): the trees behind the store equal the concrete state of the model ----------
     t0 = time.time()
     wb_mismatch = []
@@ -347,7 +359,7 @@ def run(c):
         rule="one case = one program (configuration class, sequence of mutating calls with arguments) executed on the real store with Get on every id and Query on every probe after every call; distinct by (class, call sequence); evaluations = API calls whose result TLC checked",
         whitebox_dumps_compared=ninspect, whitebox_programs_with_mismatch=len(wb_mismatch),
         rejections=len(rejected), rejections_explained_by_named_deviations=len(explained), rejection_signatures=per_class,
-        coverage_actions={k: v for k, v in r.coverage.items()} if r.coverage else None,
+        coverage_actions=cover or None,
     ))
     c.assumptions += [
         "single client; no crash inside Optimize; filesystem backend, in-memory L2 cache; deduplication enabled",
@@ -392,7 +404,7 @@ def bulk_validate(c, cfg, traces, tag):
 
 def slim(ev):
     raw = dict(ev.get("_raw") or {})
-    for k in ("usage", "buf", "items", "score"):
+    for k in ("usage", "buf", "items", "score", "ver"):
         if k in raw and (k != "items" or not raw[k]):
             raw.pop(k)
     if raw.get("ev") != "Query":
